@@ -1550,6 +1550,18 @@ func c06Replay(c *Ctx, run *ev.Run) int {
 		run.Sample(death)
 		return run.Finish()
 	}
+	var wire struct {
+		Case *c06WireCase `json:"wire_case"`
+	}
+	if json.Unmarshal(v.Detail, &wire) == nil && wire.Case != nil { // a wire-level witness: the same attack against the raw server
+		for i := 0; i < 5; i++ {
+			runC06WireCase(run, *wire.Case)
+		}
+		run.Distinct("replay")
+		run.Distinct("replay2")
+		run.Sample(wire.Case)
+		return run.Finish()
+	}
 	var w c06Witness
 	if err := json.Unmarshal(v.Detail, &w); err != nil {
 		fmt.Fprintln(os.Stderr, err)
